@@ -6,7 +6,10 @@ from .. import graph_hist as H
 from .. import histprops as HP
 
 LEVEL = 'proof'
-NEEDS = ['SFMutators', 'Extracted', 'SourceFacts', 'Base', 'Names', 'NamesProofs', 'Graph', 'GraphObs', 'GraphTS', 'GraphInv', 'GraphLemmas', 'GraphInvProofs', 'Spec', 'SpecProofs']
+NEEDS = ['PyRtMut', 'PyRtAdd', 'MutGenAdd', 'MutGenAddProofs', 'CorrMutGenAdd', 'SFMutators', 'Extracted', 'SourceFacts', 'Base', 'Names', 'NamesProofs', 'Graph', 'GraphObs', 'GraphTS', 'GraphInv', 'GraphLemmas', 'GraphInvProofs', 'Spec', 'SpecProofs']
+# the code translated from the source on every run: when the translator REFUSES the current source the run falls back to the
+# hand-written model and its correspondence (harness/main.py)
+GEN_SOFT = dict(generated=['MutGenAdd'], modules=['MutGenAdd', 'MutGenAddProofs', 'CorrMutGenAdd'])
 
 
 def consistent(g, kind, op, code, before, after, ctx):
@@ -75,11 +78,13 @@ def mixed_gen(rng, kind):
 
 
 def check(run, tier, seed):
-    HP.history_property(run, tier, seed, pid='C01', oracle=consistent, divergence_is_violation=True,
+    _hist = HP.history_property(run, tier, seed, pid='C01', oracle=consistent, divergence_is_violation=True,
                         n_quick=240, n_thorough=4000, gen_factory=mixed_gen,
                         describe='Random histories of all public mutators (all argument forms, all six edge types, both classes, '
                                  'lags of both signs) plus exhaustive short histories over a 3-name alphabet.')
     bulk_equals_singles(run, tier, seed)
+    from .. import addgencorr
+    addgencorr.translated_adders(run, _hist[0])
 
 
 def _bulk_case(rng, kind):
